@@ -6,5 +6,5 @@ V=/verif
 mkdir -p $V/.work/bin $V/evidence $V/replays
 cd $V/engine
 cp /repo/go.sum go.sum
-go build -tags verif -o $V/.work/bin/check ./cmd/check
+go build -tags verif -o $V/.work/bin/check-all ./cmd/check
 echo setup ok
